@@ -80,7 +80,7 @@ func (dir root) Attr(ctx context.Context, a *fuse.Attr) error {
 
 func (dir root) Lookup(ctx context.Context, name string) (fs.Node, error) {
 	t := tor.GetByName(name)
-	if t == nil {
+	if t == nil || !t.InfoComplete() {
 		return nil, fuse.ENOENT
 	}
 
